@@ -4,6 +4,7 @@ import struct
 
 from vf.enc import elf as W
 from vf.ref import c08_reloc as REF
+from vf.ref import c08_corpus as CORP
 from vf.choose import RndChooser, composite_from
 
 ID = 'C08'
@@ -19,7 +20,7 @@ RULE = ('(a) REL/RELA sections and DT_REL/DT_RELA/DT_JMPREL tables (reached thro
         '(d) unsupported type / wrong REL-RELA flavour / symbol index >= table size / unsupported machine / n64 composite relocation '
         'must raise ELFRelocationError. Non-trivial: an applied relocation whose exact result is negative or wraps at the field width, a '
         'big-endian applied field, a RELR bitmap word with >= 2 relocation bits, or an error-path case. Distinct by SHA-1 of the file.')
-N = {'quick': 4000, 'thorough': 200000}
+N = {'quick': 8000, 'thorough': 500000}
 ASSUMPTIONS = ['sh_entsize / DT_RELENT / DT_RELAENT / DT_RELRENT equal the entry size, table sizes are whole multiples of it; table addresses are non-zero and mapped by exactly one PT_LOAD',
                'RELR address entries are even (not necessarily word aligned) and small enough that no decoded address exceeds 2^class; a stream never starts with a bitmap',
                'relocatable objects: sh_addr = 0 (P = r_offset), symbols are not STT_FUNC (no Thumb/descriptor adjustments), S = st_value, fields lie inside the section and do not overlap except LoongArch ADDn/SUBn pairs of equal width on one field',
@@ -141,81 +142,107 @@ def exp_entry(cls, mips64, rela, e):
     return d
 
 
-def check_reltable(ctx, case, where, tab, t, cls, mips64):
-    """tab: RelocationSection or RelocationTable; t: model"""
+def check_reltable(ctx, case, where, tab, t, cls, mips64, summary=None):
+    """tab: RelocationSection or RelocationTable; t: model.  Field mismatches are bucketed per field and cell
+    (`table|<field>|<cell>`); with summary=<bucket> (dynamic view of a table whose section view was already found correct)
+    every content mismatch goes to that one bucket instead, because the cause is then the table addressing, not the
+    entry decoding.  Returns True when nothing was reported."""
     entries, rela = t['entries'], t['rela']
     n = len(entries)
     cell = 'cls=%d%s' % (cls, '|mips64' if mips64 else '')
+    bad = []
+
+    def fail(bucket, detail):
+        bad.append(bucket)
+        if summary:
+            ctx.fail(summary, '%s: %s' % (bucket, detail), case)
+        else:
+            ctx.fail(bucket, '%s: %s' % (where, detail), case)
+
     try:
         if bool(tab.is_RELA()) != rela:
+            bad.append('is_RELA')
             ctx.fail('%s|is_RELA' % where, 'table flavour: expected %r got %r' % (rela, tab.is_RELA()), case)
         if tab.num_relocations() != n:
+            bad.append('num')
             ctx.fail('%s|num_relocations' % where, 'encoded %d got %r' % (n, tab.num_relocations()), case)
     except Exception as e:  # noqa
+        bad.append('exc')
         ctx.fail_exc('%s|num_relocations' % where, e, case)
 
-    def cmp(tag, got, e, i):
+    def cmp(got, e, i, tag):
         exp = exp_entry(cls, mips64, rela, e)
-        try:
-            if bool(got.is_RELA()) != rela:
-                ctx.fail('%s|%s|entry.is_RELA' % (where, tag), 'entry %d: expected %r' % (i, rela), case)
-            ent = got.entry
-            for k, v in exp.items():
-                if k not in ent:
-                    ctx.fail('%s|%s|%s|missing' % (where, tag, k), 'entry %d has no field %s' % (i, k), case)
-                elif ent[k] != v or got[k] != v:
-                    ctx.fail('%s|%s|%s|%s' % (where, tag, k, cell), 'entry %d %r: expected %s=%#x got %r' % (i, e, k, v, ent[k]), case)
-            if not rela and 'r_addend' in ent:
-                ctx.fail('%s|%s|r_addend|present-in-REL' % (where, tag), 'entry %d' % i, case)
-        except Exception as ex:  # noqa
-            ctx.fail_exc('%s|%s|entry' % (where, tag), ex, case)
+        if bool(got.is_RELA()) != rela:
+            fail('table|entry.is_RELA', 'entry %d: expected %r' % (i, rela))
+        ent = got.entry
+        for k, v in exp.items():
+            if k not in ent:
+                fail('table|%s|missing|%s' % (k, cell), 'entry %d has no field %s' % (i, k))
+            elif ent[k] != v or got[k] != v:
+                fail('table|%s|%s%s' % (k, cell, tag), 'entry %d %r: expected %s=%#x got %r' % (i, e, k, v, ent[k]))
+        if not rela and 'r_addend' in ent:
+            fail('table|r_addend|present-in-REL', 'entry %d' % i)
 
     try:
         lst = list(tab.iter_relocations())
         if len(lst) != n:
+            bad.append('count')
             ctx.fail('%s|iter|count' % where, 'encoded %d yielded %d' % (n, len(lst)), case)
         for i, (g, e) in enumerate(zip(lst, entries)):
-            cmp('iter', g, e, i)
+            cmp(g, e, i, '')
     except Exception as e:  # noqa
+        bad.append('exc')
         ctx.fail_exc('%s|iter' % where, e, case)
-    for i in case.get('probe', []):
-        if i < n:
-            try:
-                cmp('get', tab.get_relocation(i), entries[i], i)
-            except Exception as e:  # noqa
-                ctx.fail_exc('%s|get_relocation' % where, e, case)
+    if not bad:
+        # random access must agree with the sequential walk (only meaningful when that one was right)
+        for i in case.get('probe', []):
+            if i < n:
+                try:
+                    cmp(tab.get_relocation(i), entries[i], i, '|get_relocation')
+                except Exception as e:  # noqa
+                    bad.append('exc')
+                    ctx.fail_exc('%s|get_relocation' % where, e, case)
+    return not bad
 
 
-def check_relr(ctx, case, where, tab, t, cls):
+def check_relr(ctx, case, where, tab, t, cls, summary=None):
+    """-> True when nothing was reported.  summary: see check_reltable."""
     exp = REF.relr_expand(t['words'], cls)
     cell = 'cls=%d' % cls
     first = case.get('relr_first', 'iter')
-    got = None
+    bad = []
+
+    def fail(bucket, detail):
+        bad.append(bucket)
+        if summary:
+            ctx.fail(summary, '%s: %s' % (bucket, detail), case)
+        else:
+            ctx.fail(bucket, '%s: %s' % (where, detail), case)
+
     try:
-        if first == 'num':
-            k = tab.num_relocations()
-            if k != len(exp):
-                ctx.fail('%s|num_relocations|%s' % (where, cell), 'words %s: expected %d relocations got %r' % (hexl(t['words']), len(exp), k), case)
+        early = tab.num_relocations() if first == 'num' else None
         got = [r['r_offset'] for r in tab.iter_relocations()]
         if got != exp:
             j = next((i for i, (a, b) in enumerate(zip(got, exp)) if a != b), min(len(got), len(exp)))
-            ctx.fail('%s|offsets|%s' % (where, cell), 'words %s: first difference at relocation %d: expected %s got %s (counts %d / %d)' % (
-                hexl(t['words']), j, hexl(exp[j:j + 3]), hexl(got[j:j + 3]), len(exp), len(got)), case)
-        k = tab.num_relocations()
-        if k != len(exp):
-            ctx.fail('%s|num_relocations|%s' % (where, cell), 'expected %d got %r' % (len(exp), k), case)
-        for i in case.get('probe', []):
-            if i < len(exp):
-                g = tab.get_relocation(i)['r_offset']
-                if g != exp[i]:
-                    ctx.fail('%s|get_relocation|%s' % (where, cell), 'index %d: expected %#x got %r' % (i, exp[i], g), case)
-        # second pass must be identical (memoised list must not change the answer)
-        again = [r['r_offset'] for r in tab.iter_relocations()]
-        if got is not None and again != got:
-            ctx.fail('%s|second-pass' % where, 'second iteration differs from the first', case)
+            fail('relr|offsets|%s' % cell, 'words %s: first difference at relocation %d: expected %s got %s (counts %d / %d)' % (
+                hexl(t['words']), j, hexl(exp[j:j + 3]), hexl(got[j:j + 3]), len(exp), len(got)))
+        else:
+            # the memoised views must agree with the walk (only meaningful when the walk was right)
+            for k in (early, tab.num_relocations()):
+                if k is not None and k != len(exp):
+                    fail('relr|num_relocations|%s' % cell, 'words %s: expected %d relocations got %r' % (hexl(t['words']), len(exp), k))
+            for i in case.get('probe', []):
+                if i < len(exp):
+                    g = tab.get_relocation(i)['r_offset']
+                    if g != exp[i]:
+                        fail('relr|get_relocation|%s' % cell, 'index %d: expected %#x got %r' % (i, exp[i], g))
+            again = [r['r_offset'] for r in tab.iter_relocations()]
+            if again != got:
+                fail('relr|second-pass', 'second iteration differs from the first')
     except Exception as e:  # noqa
+        bad.append('exc')
         ctx.fail_exc('%s' % where, e, case)
-    return exp
+    return not bad
 
 
 def hexl(xs):
@@ -228,6 +255,7 @@ def run_tables(ctx, case):
     mips64 = cls == 64 and em == 8
     data, R, tidx, dyn_idx, addr = build_table_file(case)
     nt = False
+    sec_ok = {}
     try:
         ef = L['ELFFile'](io.BytesIO(data))
     except Exception as e:  # noqa
@@ -244,7 +272,7 @@ def run_tables(ctx, case):
             if not isinstance(sec, L['RelrRelocationSection']):
                 ctx.fail('sec|relr|class', type(sec).__name__, case)
                 continue
-            check_relr(ctx, case, 'sec|relr', sec, t, cls)
+            sec_ok[k] = check_relr(ctx, case, 'sec|relr', sec, t, cls)
             ctx.count('relr.section')
             multi = sum(1 for w in t['words'] if w & 1 and bin(w >> 1).count('1') >= 2)
             if multi:
@@ -258,7 +286,7 @@ def run_tables(ctx, case):
             if not isinstance(sec, L['RelocationSection']):
                 ctx.fail('sec|rel|class', type(sec).__name__, case)
                 continue
-            check_reltable(ctx, case, 'sec|%s' % ('rela' if t['rela'] else 'rel'), sec, t, cls, mips64)
+            sec_ok[k] = check_reltable(ctx, case, 'sec|%s' % ('rela' if t['rela'] else 'rel'), sec, t, cls, mips64)
             ctx.count('table.section.%s' % ('rela' if t['rela'] else 'rel'))
             if any(e[3] < 0 for e in t['entries']) and t['rela']:
                 ctx.count('table.negative-addend')
@@ -298,13 +326,15 @@ def run_tables(ctx, case):
                         if not isinstance(got[key], L['RelrRelocationTable']):
                             ctx.fail('dyn|RELR|class', type(got[key]).__name__, case)
                             continue
-                        check_relr(ctx, case, 'dyn|relr', got[key], t, cls)
+                        if sec_ok.get(want[key]):
+                            check_relr(ctx, case, 'dyn|RELR', got[key], t, cls, summary='dyn|RELR|differs-from-section-view')
                         ctx.count('relr.dynamic')
                     else:
                         if not isinstance(got[key], L['RelocationTable']):
                             ctx.fail('dyn|%s|class' % key, type(got[key]).__name__, case)
                             continue
-                        check_reltable(ctx, case, 'dyn|%s' % key, got[key], t, cls, mips64)
+                        if sec_ok.get(want[key]):
+                            check_reltable(ctx, case, 'dyn|%s' % key, got[key], t, cls, mips64, summary='dyn|%s|differs-from-section-view' % key)
                         ctx.count('table.dynamic.%s%s' % (key, ('.rela' if t['rela'] else '.rel') if key == 'JMPREL' else ''))
                 ctx.count('dyn.via-%s%s' % (dyn['via'], '' if dyn['dynsec'] else '.nosection'))
     ctx.count('cell.%s.%d%s%s' % (case['kind'], cls, 'le' if le else 'be', '.mips64' if mips64 else ''))
@@ -323,11 +353,16 @@ def build_apply_file(case):
     le = case['le']
     mips64 = cls == 64 and case['em'] == 8
     symvals = case['syms']
-    names = ['' if i == 0 else 's%d' % i for i in range(len(symvals))]
+    decoy = case.get('decoy')       # a second symbol table of the other kind that no relocation section links to
+    names = ['' if i == 0 else 's%d' % i for i in range(max(len(symvals), len(decoy['syms']) if decoy else 0))]
     strblob, offs = W.build_strtab(names)
-    symdata = b''.join(W.enc_sym(cls, le, offs[nm], v, 0, 0 if i == 0 else case['syminfo'][i % len(case['syminfo'])], 0,
-                                 0 if i == 0 else case['symshndx'][i % len(case['symshndx'])])
-                       for i, (nm, v) in enumerate(zip(names, symvals)))
+
+    def symtab(vals):
+        return b''.join(W.enc_sym(cls, le, offs[nm], v, 0, 0 if i == 0 else case['syminfo'][i % len(case['syminfo'])], 0,
+                                  0 if i == 0 else case['symshndx'][i % len(case['symshndx'])])
+                        for i, (nm, v) in enumerate(zip(names, vals)))
+    symdata = symtab(symvals)
+    real = '.dynsym' if decoy and decoy['real'] == 'dynsym' else '.symtab'
     named = []      # (name, dict, link name, info name)
     for t in case['targets']:
         named.append((t['name'], {'sh_type': t.get('sh_type', 1), 'sh_flags': t.get('sh_flags', 0), 'sh_addralign': 1, 'data': t['data']}, None, None))
@@ -336,15 +371,19 @@ def build_apply_file(case):
             ents = [(r['off'], r['sym'], r['type'], r.get('addend', 0)) + tuple(r.get('sub') or (0, 0, 0)) for r in t['relocs']]
             named.append((('.rela' if rela else '.rel') + t['name'],
                           {'sh_type': 4 if rela else 9, 'sh_flags': 0x40, 'sh_entsize': ent_size(cls, rela), 'sh_addralign': cls // 8,
-                           'data': enc_entries(cls, le, rela, mips64, ents)}, '.symtab', t['name']))
+                           'data': enc_entries(cls, le, rela, mips64, ents)}, real, t['name']))
     x = case.get('extra')
     if x:
         named.append((x['name'], {'sh_type': 1, 'sh_flags': 6 if x['name'] == '.text' else 0, 'data': x['data']}, None, None))
         ents = [(r['off'], r['sym'], r['type'], r.get('addend', 0), 0, 0, 0) for r in x['relocs']]
         named.append((('.rela' if x['rela'] else '.rel') + x['name'],
                       {'sh_type': 4 if x['rela'] else 9, 'sh_flags': 0x40, 'sh_entsize': ent_size(cls, x['rela']),
-                       'data': enc_entries(cls, le, x['rela'], mips64, ents)}, '.symtab', x['name']))
-    named.append(('.symtab', {'sh_type': 2, 'sh_entsize': W.SYM_SIZE[cls], 'sh_info': 1, 'sh_addralign': cls // 8, 'data': symdata}, '.strtab', None))
+                       'data': enc_entries(cls, le, x['rela'], mips64, ents)}, real, x['name']))
+    if decoy:
+        other = '.symtab' if real == '.dynsym' else '.dynsym'
+        named.append((other, {'sh_type': 2 if other == '.symtab' else 11, 'sh_entsize': W.SYM_SIZE[cls], 'sh_info': 1, 'sh_addralign': cls // 8,
+                              'data': symtab(decoy['syms'])}, '.strtab', None))
+    named.append((real, {'sh_type': 2 if real == '.symtab' else 11, 'sh_entsize': W.SYM_SIZE[cls], 'sh_info': 1, 'sh_addralign': cls // 8, 'data': symdata}, '.strtab', None))
     named.append(('.strtab', {'sh_type': 3, 'data': strblob}, None, None))
     named.append(('.shstrtab', {'sh_type': 3, 'data': b''}, None, None))
     perm = case.get('secperm')
@@ -507,8 +546,102 @@ def run_apply(ctx, case):
                         'syms': case['syms'][:6], 'file_hex_head': data[:64].hex()})
 
 
+EM_TO_MK = {(3, 32): 'x86', (62, 64): 'x64', (40, 32): 'arm', (183, 64): 'aarch64', (8, 32): 'mips_rel', (8, 64): 'mips_rela',
+            (21, 64): 'ppc64', (22, 64): 's390', (258, 64): 'loongarch'}
+
+
+def corpus_plan(data):
+    """Independent reading of a compiler-produced object: -> (elf, mk, [(section name, contents, rela, relocs, symvals)])"""
+    elf = CORP.read_elf(data)
+    mk = EM_TO_MK.get((elf['em'], elf['cls']))
+    plan = []
+    seen = set()
+    for s in elf['sections']:
+        if s['name'] not in DEBUG_ATTR or s['name'] in seen:
+            continue
+        seen.add(s['name'])
+        rs = next((r for r in elf['sections'] if r['type'] in (4, 9) and r['name'] in ('.rel' + s['name'], '.rela' + s['name'])), None)
+        if rs is None:
+            plan.append((s['name'], s['data'], None, [], []))
+        else:
+            plan.append((s['name'], s['data'], rs['type'] == 4, CORP.relocations(elf, rs), CORP.symbol_values(elf, elf['sections'][rs['link']])))
+    return elf, mk, plan
+
+
+def run_corpus(ctx, case):
+    L = lib()
+    data = case['file']
+    elf, mk, plan = corpus_plan(data)
+    le = elf['le']
+    nt = False
+    try:
+        ef = L['ELFFile'](io.BytesIO(data))
+        di0 = ef.get_dwarf_info(relocate_dwarf_sections=False)
+        di1 = L['ELFFile'](io.BytesIO(data)).get_dwarf_info(relocate_dwarf_sections=True)
+    except Exception as e:  # noqa
+        ctx.fail_exc('corpus|%s' % mk, e, case)
+        ctx.case(data, False)
+        return
+    for name, content, rela, relocs, symvals in plan:
+        g0 = getattr(di0, DEBUG_ATTR[name]).stream.getvalue()
+        if g0 != content:
+            ctx.fail('corpus|disabled|bytes-changed', '%s: section %s differs from the file contents' % (case['name'], name), case)
+        if rela is None:
+            exp, facts = content, []
+        else:
+            exp, facts = REF.apply_expected(mk, elf['em'], le, rela, content, relocs, symvals)
+        g1 = getattr(di1, DEBUG_ATTR[name]).stream.getvalue()
+        ctx.count('corpus.relocations', len(facts))
+        for f in facts:
+            ctx.count('corpus.%s.type%d' % (mk, f['type']))
+            if f['width'] and (not le or f['exact'] < 0 or f['exact'] >> (8 * f['width'])):
+                nt = True
+        if g1 == exp:
+            continue
+        for f in facts:
+            o, w = f['off'], f['width']
+            g = int.from_bytes(g1[o:o + w], 'little' if le else 'big')
+            if w and g != f['stored']:
+                diag = classify_value(f, g)
+                ctx.fail('apply|value|%s|%s' % (mk, diag) if diag != 'other' else 'apply|value|%s|type=%d|width=%d' % (mk, f['type'], w),
+                         'corpus object %s%s, section %s %s type %d @P=%d width %d: S=%#x A=%#x in-place=%#x: expected %s = %#x got %#x' % (
+                             case['name'], ' (RELA fields pre-filled)' if case.get('poison') else '', name, 'RELA' if rela else 'REL', f['type'], o, w,
+                             f['S'], f['A'], f['V'], f['kind'], f['stored'], g), case)
+        cov = set()
+        for f in facts:
+            cov |= set(range(f['off'], f['off'] + f['width']))
+        if len(g1) != len(exp) or any(g1[i] != exp[i] for i in range(len(exp)) if i not in cov):
+            ctx.fail('apply|collateral|%s' % mk, 'corpus object %s section %s: bytes outside the relocated fields changed' % (case['name'], name), case)
+    ctx.count('corpus.object%s' % ('.poisoned' if case.get('poison') else ''))
+    ctx.case(data, nt, {'kind': 'corpus', 'name': case['name'], 'poison': case.get('poison'), 'sections': [(p[0], len(p[3])) for p in plan]})
+
+
+def corpus_cases():
+    """every vendored object as compiled, and (RELA objects) with the to-be-relocated fields pre-filled with 0xA5.. -- the
+    gABI makes the previous contents irrelevant for RELA, so this is the same object as far as a consumer is concerned"""
+    cases = []
+    for name, data in CORP.corpus().items():
+        cases.append({'kind': 'corpus', 'name': name, 'poison': False, 'file': data})
+        elf, mk, plan = corpus_plan(data)
+        buf = bytearray(data)
+        touched = False
+        for s in elf['sections']:
+            for pname, content, rela, relocs, symvals in plan:
+                if s['name'] == pname and rela:
+                    for r in relocs:
+                        w = REF.MACHINES[mk]['types'][r['type']][0]
+                        for i in range(w):
+                            buf[s['offset'] + r['off'] + i] = 0xA5 ^ i
+                            touched = True
+        if touched:
+            cases.append({'kind': 'corpus', 'name': name, 'poison': True, 'file': bytes(buf)})
+    return cases
+
+
 def run_case(ctx, case):
-    if case['kind'] == 'apply':
+    if case['kind'] == 'corpus':
+        run_corpus(ctx, case)
+    elif case['kind'] == 'apply':
         run_apply(ctx, case)
     else:
         run_tables(ctx, case)
@@ -530,7 +663,15 @@ def sval(ch, bits):
     return REF.signed(uval(ch, bits), bits)
 
 
+def bulk_chooser(ch, n, small=6):
+    """Few elements are drawn one by one from the strategy (they shrink well); long tables are expanded from one drawn
+    64-bit seed by the deterministic PRNG chooser (Hypothesis' per-example entropy budget does not hold hundreds of
+    entries).  Either way the explicit elements are stored in the case."""
+    return ch if n <= small else RndChooser(ch.int(0, (1 << 64) - 1))
+
+
 def gen_entries(ch, cls, mips64, n):
+    ch = bulk_chooser(ch, n)
     out = []
     for _ in range(n):
         off = ch.word(cls)
@@ -543,6 +684,7 @@ def gen_entries(ch, cls, mips64, n):
 
 
 def gen_relr_words(ch, cls, n):
+    ch = bulk_chooser(ch, n, 10)
     words = []
     top = (1 << cls) - (1 << 21)
     for i in range(n):
@@ -754,7 +896,9 @@ def gen_apply(ch, tier, mk=None, le=None, neg='auto'):
         junk = [{'off': ch.int(0, 300), 'sym': ch.int(0, 50), 'type': ch.int(0, 255), 'addend': sval(ch, cls) if junk_rela else 0} for _ in range(ch.int(1, 4))]
         nm = ch.choice(['.text', '.debug_macro', '.debug_infox', '.data'])
         case['extra'] = {'name': nm, 'data': ch.bytes(4, 32), 'rela': junk_rela, 'relocs': junk}
-    nsec = 2 * len(targets) + 5
+    if ch.bool(0.3):
+        case['decoy'] = {'real': ch.choice(['symtab', 'dynsym']), 'syms': [0] + [uval(ch, cls) for _ in range(ch.int(0, 7))]}
+    nsec = 2 * len(targets) + 6
     if ch.bool(0.5):
         case['secperm'] = ch.perm(list(range(nsec)))
     if ch.bool(0.4):
@@ -897,6 +1041,8 @@ def sweep_apply():
                         extra['secperm'] = [4, 3, 2, 1, 0]
                     if nfile % 4 == 0:
                         extra['gaps'] = {'1': 1, '2': 3}
+                    if nfile % 5 == 0:
+                        extra['decoy'] = {'real': 'dynsym' if nfile % 10 == 0 else 'symtab', 'syms': [0, 0x11, 0x22222222, 0x33]}
                     cases.append(_apply_case(mk, le, data, relocs, [0] + svals, **extra))
         # error paths, one offending relocation per file
         w0 = min(w for w, _ in spec['types'].values() if w)
@@ -931,7 +1077,7 @@ def sweep_apply():
 
 
 def sweep(tier):
-    cases = sweep_tables() + sweep_apply()
+    cases = sweep_tables() + sweep_apply() + corpus_cases()
     ch = RndChooser(8008)
     for mk in MACHINE_KEYS:
         for le in (True, False):
@@ -960,5 +1106,5 @@ def floors(ctx):
     for k in ('table', 'relr'):
         for cell in ('32le', '32be', '64le', '64be'):
             need.append('cell.%s.%s' % (k, cell))
-    need += ['cell.table.64le.mips64', 'cell.table.64be.mips64']
+    need += ['cell.table.64le.mips64', 'cell.table.64be.mips64', 'corpus.object', 'corpus.object.poisoned', 'corpus.relocations']
     return ['no case of class ' + k for k in need if c[k] == 0]
